@@ -6,7 +6,7 @@
    groups may carry any ids, annotations anywhere and a TaxRange label that does not name the taxon
    all their members share.  Histories are ordered here; since every order of lineages and copies is
    a history too, quantifying over all of them covers every order in which a file can list members.
-   (LOFT attributes on geneRefs are not covered by this relation.)
+   geneRefs may carry a LOFT attribute (each gene is referenced once, so the id is assigned once).
    Definitions only: no proofs in this file. *)
 From Coq Require Import List Arith Bool String.
 From PyHam Require Import Tax Ortho Loader Hist.
@@ -60,10 +60,10 @@ Definition levels_ok (X : taxon) (lvls : list taxon) : Prop :=
    sp_units t cs body lvls : body spells the copies cs of one duplication, in order, in any
    bracketing; lvls are the levels of the spelt copies. *)
 Inductive sp_member (t : stree) : bool -> hist -> list item -> option taxon -> Prop :=
-| sm_gene mp g p : sp_member t mp (XG g p) [IGene g None] (Some p)
-| sm_wrap mp g p n id og :
+| sm_gene mp g p loft : sp_member t mp (XG g p) [IGene g loft] (Some p)
+| sm_wrap mp g p n id og loft :
     name_of t p = Some n ->
-    sp_member t mp (XG g p) [IOG id og [IProp "TaxRange" n; IGene g None]] (Some p)
+    sp_member t mp (XG g p) [IOG id og [IProp "TaxRange" n; IGene g loft]] (Some p)
 | sm_explicit mp p lins id og body :
     sp_body t (single lins) p lins body -> label_ok t lins body ->
     sp_member t mp (XH p lins) [IOG id og body] (Some p)
